@@ -201,6 +201,10 @@ func TurnstoneMsg(c *chain.Chain, qm consensustypes.QueuedSignedMessageI) *evmty
 	return m
 }
 
+// ReceiptHook, when set, may alter the receipt of the remote transaction DeliverMessage reports (hostile receipt
+// contents: logs without topics, foreign events, oversized data). The evidence all validators hand in carries it.
+var ReceiptHook func(*ethtypes.Receipt)
+
 // Deliver drives ONE queued turnstone message through its whole life with honest pigeons:
 // gas estimates by all validators -> election -> signatures by all -> relay by the assignee
 // (public access data = tx hash) -> evidence by all -> attestation at the end of that block.
@@ -293,6 +297,9 @@ func DeliverMessage(c *chain.Chain, vals []*chain.Account, chainRef string, chai
 	}
 	if err := block(); err != nil {
 		return nil, err
+	}
+	if ReceiptHook != nil {
+		ReceiptHook(rtx.Receipt)
 	}
 	proof, err := rtx.Proof(false)
 	if err != nil {
